@@ -474,6 +474,50 @@ def opLda (weighted : Bool) (a : List Int) (o : Option Obs) : String :=
           return v.line
   | _ => "bad-op"
 
+/-- `fisher whitening dims | table+class`: global mean and offset of FisherLDA -/
+def opFisher (a : List Int) (o : Option Obs) : String :=
+  match a with
+  | _wh :: dims :: rest =>
+    match parseTable rest 1 with
+    | none => "bad-op"
+    | some t =>
+      let d := t.d
+      let rows : List (Vec × Nat) := t.rows.map fun r => ((r.take d).map fun (v : Int) => (v : Rat), (r.getD d 0).toNat)
+      let cbs : CData := cut t.sizes rows
+      let classes := (rows.foldl (fun m p => max m p.2) 0) + 1
+      -- default subspace dimension = number of classes, capped by the input dimension (repaired trainer, F-C15-8)
+      let nComp := min (if dims = 0 then classes else dims.toNat) d
+      match o with
+      | none => "model mean " ++ " ".intercalate ((List.range d).map fun j => showRat (fisherMean cbs classes j))
+      | some o =>
+        let mut_sw := (tab2 d d (withinScatter cbs)).at2
+        let swRegular := rank d mut_sw = d
+        if o.status = "exc" then
+          (if swRegular then "FAIL unexpected exception (within-class scatter is regular)" else "ok exact=0 tol=0 rel=0 tags=exception,singular-within-scatter") else
+        if o.status ≠ "ok" then "FAIL status " ++ o.status else
+        if ¬ swRegular then "ok exact=0 tol=0 rel=0 tags=singular-within-scatter-unchecked" else
+        let gm := o.group "gmean"; let gW := o.group "W"; let gb := o.group "b"
+        if gm.size ≠ d ∨ gW.size ≠ nComp * d ∨ gb.size ≠ nComp then "FAIL shape" else Id.run do
+          let mut v : Verdict := {}
+          if t.sizes.length > 1 then v := v.tag "multi-batch"
+          for j in [0:d] do
+            match gm[j]! with
+            | .fin g =>
+              let m := fisherMean cbs classes j
+              if g = m then v := { v with exact := v.exact + 1 }
+              else if rabs (g - m) ≤ tolFun * (1 + rabs m) then v := { v with tol := v.tol + 1 }
+              else if rabs (g - fisherMeanPinned cbs classes j) ≤ tolFun * (1 + rabs m) then
+                v := v.fail s!"fisherlda-mean: global mean[{j}] = {showRat g} is the pinned mean/n (divided by the number of inputs twice); model {showRat m}"
+              else v := v.fail s!"gmean[{j}]: model {showRat m} impl {showRat g}"
+            | g => v := v.fail s!"gmean[{j}] impl {showV g}"
+          if gW.all (·.isFin) ∧ gb.all (·.isFin) ∧ gm.all (·.isFin) then
+            for i in [0:nComp] do
+              let lhs := -(rsum d fun j => gW[i * d + j]!.get * gm[j]!.get)
+              v := v.spec s!"offset[{i}] = -W*mean" gb[i]!.get lhs (rsum d fun j => rabs (gW[i * d + j]!.get * gm[j]!.get))
+          else v := v.fail "fisher-nonfinite model"
+          return v.line
+  | _ => "bad-op"
+
 def dispatch (op : String) (a : List Int) (o : Option Obs) : String :=
   match op with
   | "meanvar" => opMeanVar a o
@@ -485,6 +529,7 @@ def dispatch (op : String) (a : List Int) (o : Option Obs) : String :=
   | "pca" => opPca a o
   | "lda" => opLda false a o
   | "wlda" => opLda true a o
+  | "fisher" => opFisher a o
   | _ => "bad-op"
 
 def step (line : String) : String :=
